@@ -174,8 +174,9 @@ def run_case(case):
                 for i in near:
                     if nd == 0 and times[i] == edge_t:
                         continue          # bit-for-bit the edge sample itself: the edge value, nothing else
-                    lo[i] = min(lo[i], e0[i] - abs(gain * edge_v))
-                    hi[i] = max(hi[i], e0[i] + abs(gain * edge_v))
+                    # every ambiguous edge may or may not contribute its value: several edges can coincide at one query time
+                    lo[i] -= abs(gain * edge_v)
+                    hi[i] += abs(gain * edge_v)
         wv = np.asarray(w.values, float)
         if not noisy:
             resid = np.where(wv < lo, wv - lo, np.where(wv > hi, wv - hi, 0.0))
